@@ -705,6 +705,56 @@ theorem output_picklist_select_linear {ct : Coltype} (hct : ct.isMeta = true) (i
   rw [← hd t ht'.1 s hs hk]
   exact ht'.2
 
+/-! ## 8d. a picklist object used by several selects / databases -/
+
+/-- the bookkeeping accumulates over everything the picklist was asked about (several selects, several databases) … -/
+theorem found_accumulates (pl : Picklist) (a b : List Sig) :
+    pl.foundAfter (a ++ b) = pl.foundAfter a ++ pl.foundAfter b := by
+  simp [Picklist.foundAfter]
+
+/-- … and `sig check -o` reports exactly the picklist values that no signature looked at carries (include style) -/
+theorem missing_values_exact (pl : Picklist) (hinc : pl.exclude = false) (asked : List Sig) (v : PVal) :
+    v ∈ pl.missingAfter asked ↔
+      v ∈ pl.pickset ∧ ∀ s ∈ asked, applyPre (preOf pl.coltype) (sigAttr pl.coltype s) ≠ v := by
+  have hfound : ∀ w, (pl.foundAfter asked).contains w = true ↔
+      w ∈ pl.pickset ∧ ∃ s ∈ asked, applyPre (preOf pl.coltype) (sigAttr pl.coltype s) = w := by
+    intro w
+    simp only [Picklist.foundAfter, List.contains_iff_mem, List.mem_filter, List.mem_map, Picklist.decide, hinc,
+      Bool.false_eq_true, if_false]
+    constructor
+    · rintro ⟨⟨s, hs, rfl⟩, hw⟩; exact ⟨hw, s, hs, rfl⟩
+    · rintro ⟨hw, s, hs, rfl⟩; exact ⟨⟨s, hs, rfl⟩, hw⟩
+  simp only [Picklist.missingAfter, List.mem_filter]
+  constructor
+  · rintro ⟨hv, h⟩
+    refine ⟨hv, fun s hs he => ?_⟩
+    have : (pl.foundAfter asked).contains v = true := (hfound v).mpr ⟨hv, s, hs, he⟩
+    rw [this] at h
+    cases h
+  · rintro ⟨hv, h⟩
+    refine ⟨hv, ?_⟩
+    cases hc : (pl.foundAfter asked).contains v with
+    | false => rfl
+    | true =>
+      obtain ⟨_, s, hs, he⟩ := (hfound v).mp hc
+      exact absurd he (h s hs)
+
+/-- a verdict never depends on what the picklist was asked before: in the model `hasSig` is a function of the picklist's
+    column type, style and values and of the signature alone (the `select` stream re-uses every picklist object across
+    selects and collections and compares; a per-md5 verdict cache is the seeded change C12d) -/
+theorem verdict_is_a_function_of_the_signature (pl : Picklist) (s t : Sig)
+    (h : sigAttr pl.coltype s = sigAttr pl.coltype t) : pl.hasSig s = pl.hasSig t := by
+  unfold Picklist.hasSig
+  rw [h]
+
+/-- two sketches with identical hashes (same md5) and different names are told apart by a name picklist -/
+example :
+    let a : Sig := { unnamedSig with name := ['a'] }
+    let b : Sig := { unnamedSig with name := ['x'] }
+    a.md5 = b.md5 ∧ namePicklist.hasSig a = false ∧ namePicklist.hasSig b = true ∧
+      ((Coll.linear [a, b]).select { picklist := some namePicklist }).2 = .ok (.linear [b]) :=
+  ⟨rfl, rfl, rfl, rfl⟩
+
 /-! ## 9. SBT and LCA databases: in-place picklists, refusal on everything else -/
 
 /-- an SBT that accepts a selection (it answers `self`): what it then lists is what it listed, filtered by the request
